@@ -32,7 +32,13 @@ def kw_form(draw_int, k):
 @st.composite
 def name(draw, pool="col", allow_kw=True):
     """one identifier; pool: 'col' (all keywords) | 'obj' (all but IF) | 'plainish' (no keyword-shaped names)"""
-    sty = draw(st.sampled_from(["plain", "mixed", "dq", "dqsp", "bt", "br", "kw", "kw", "kwq"]))
+    sty = draw(st.sampled_from(["plain", "mixed", "dq", "dqsp", "bt", "br", "kw", "kw", "kwq", "odd"]))
+    if sty == "odd":
+        # delimited names whose inner text is not identifier-shaped: leading digit, '$', '-', '.' (the latter only in double quotes)
+        w = draw(gen.plain_ident(min_len=2, max_len=6))
+        q = draw(st.sampled_from(["dq", "bt", "br"]))
+        inner = draw(st.sampled_from(["9" + w, "2023_" + w, "$" + w, w + "-" + w[:2], "1", "0" + w + "$"] + ([w + "." + w[:2], "-" + w] if q == "dq" else [])))
+        return gen.quote(inner, q)
     if sty in ("kw", "kwq") and (pool == "plainish" or not allow_kw):
         sty = "mixed"
     if sty == "kw":
@@ -103,8 +109,9 @@ def model_case(draw):
     decl = None
     if draw(st.integers(0, 2)) == 0:
         kind = draw(st.sampled_from(["type", "domain", "schema", "database", "tablespace", "sequence"]))
-        styles_pool = "plainish" if kind == "sequence" else "obj"
-        nm = draw(name(styles_pool))
+        nm = draw(name("obj"))
+        if kind == "sequence" and nm.strip('"`[]').upper() in SEQ_REJECTED:
+            nm = "sq_" + nm.strip('"`[]')
         if kind == "schema" and nm.startswith("`"):
             nm = nm.strip("`")  # K17: backticks are removed in CREATE SCHEMA
         decl = {"kind": kind, "name": nm, "schema": draw(st.one_of(st.none(), name("plainish"))) if kind in ("type", "domain", "sequence") else None}
@@ -159,8 +166,13 @@ SWEEP = {
     "schema": ("create schema {k};", lambda r, k: r[0]["schema_name"] == k),
     "database": ("create database {k};", lambda r, k: r[0]["database_name"] == k),
     "tablespace": ("create tablespace {k};", lambda r, k: r[0]["tablespace_name"] == k),
+    "sequence": ("create sequence {k} start 5 increment 2;", lambda r, k: r[0]["sequence_name"] == k and r[0]["start"] == 5 and r[0]["increment"] == 2),
+    "sequence_q": ("create sequence s1.{k} cache 3;", lambda r, k: r[0]["sequence_name"] == k and r[0]["schema"] == "s1" and r[0]["cache"] == 3),
 }
 NO_IF_POSITIONS = {"table", "schema_q", "constraint", "type", "domain", "schema", "database", "tablespace"}
+# a sequence name may be any keyword but the sequence option words themselves (and ARRAY, which the lexer treats as a type prefix)
+SEQ_REJECTED = {"ARRAY", "CACHE", "INCREMENT", "MAXVALUE", "MINVALUE", "NO", "NOORDER", "ORDER", "START"}
+KEYWORDS_SEQ = [k for k in KEYWORDS if k not in SEQ_REJECTED]
 QUOTES = [("", ""), ('"', '"'), ("`", "`"), ("[", "]")]
 
 
@@ -199,7 +211,7 @@ class C06(Prop):
             "PRIMARY KEY, named UNIQUE constraints, [named] FOREIGN KEY, inline REFERENCES, optional CREATE [UNIQUE] INDEX and one "
             "TYPE / DOMAIN / SCHEMA / DATABASE / TABLESPACE / SEQUENCE declaration; every name drawn from plain, mixed case, \"..\", "
             "\".. ..\", `..`, [..], keyword-shaped (87 keywords x 3 case forms) and delimited keyword names; both normalize_names "
-            "settings; (b) sweep keyword x case form x 29 naming positions x 4 quoting forms; (c) diff of the two settings over "
+            "settings; (b) sweep keyword x case form x 31 naming positions x 4 quoting forms; (c) diff of the two settings over "
             "universe scripts in a drawn mode; non-trivial = >= 1 delimited and >= 1 keyword-shaped identifier in >= 3 distinct "
             "naming positions (diff: >= 2 delimited identifiers); distinct = SHA-1 of the case")
     budgets = {"quick": 3000, "thorough": 150000}
@@ -217,7 +229,7 @@ class C06(Prop):
     def enumerated(self, tier):
         n = 0
         for pos in sorted(SWEEP):
-            pool = KEYWORDS_NO_IF if pos in NO_IF_POSITIONS else KEYWORDS
+            pool = KEYWORDS_SEQ if pos.startswith("sequence") else KEYWORDS_NO_IF if pos in NO_IF_POSITIONS else KEYWORDS
             for ki, k in enumerate(pool):
                 for f in range(3):
                     for q in range(4):
